@@ -20,7 +20,7 @@ use warp_core::{
     OpticAdmissionTicket, OpticArtifactHandle, PatternGraph, PlaybackMode, ProvenanceEntry,
     ProvenanceService, ProvenanceStore, ReceiptCorrelationPersistenceRecord, RewriteRule,
     RuntimeError, SchedulerCoordinator, SchedulerFaultRecoveryAuthority, SchedulerFaultScope,
-    SchedulerFaultStatus, SchedulerKind, StepRecord, TickDelta, TickReceiptDisposition,
+    SchedulerFaultStatus, SchedulerKind, StepRecord, TickDelta,
     TicketedRuntimeIngressAuthority, TicketedRuntimeIngressDisposition, WarpId, WarpOp,
     WorldlineId, WorldlineRuntime, WorldlineState, WorldlineTick, WriterHead, WriterHeadKey,
     OPTIC_ADMISSION_TICKET_KIND, OPTIC_ARTIFACT_HANDLE_KIND,
@@ -88,7 +88,6 @@ pub fn panic_text(p: &(dyn std::any::Any + Send)) -> String {
 //   M  emits an op into a warp instance that does not exist
 //   D  deletes a node that does not exist ⇒ typed InternalCorruption at apply
 
-pub const BEHAVIOURS: &[u8] = b"NWSAUCPFMD";
 pub const FAULT_BEHAVIOURS: &[u8] = b"CPFMD";
 
 static ARMED: Mutex<BTreeSet<u64>> = Mutex::new(BTreeSet::new());
@@ -1169,13 +1168,6 @@ pub fn err_class(e: &RuntimeError) -> String {
             format!("Provenance::{ih}")
         }
         _ => head,
-    }
-}
-
-pub fn disposition_str(d: &TickReceiptDisposition) -> &'static str {
-    match d {
-        TickReceiptDisposition::Applied => "applied",
-        TickReceiptDisposition::Rejected(_) => "rejected",
     }
 }
 
